@@ -349,10 +349,53 @@ func c04(ctx *core.Ctx) {
 	}
 }
 
+// muxOwns tells whether net/http's ServeMux must hand both p and p+"/" to the container's dispatcher, given the
+// patterns the framework is expected to register for the table (a pattern for the fixed prefix of every root path,
+// with and without trailing slash when the prefix does not end in one; "/" for roots starting with a variable).
+func muxOwns(t *rt.Table, p string) bool {
+	for _, tok := range strings.Split(p, "/") {
+		if tok == "." || tok == ".." {
+			return false // net/http cleans such paths with a redirect of its own
+		}
+	}
+	fixedOf := func(s *rt.SvcSpec) string {
+		root := s.RenderRoot()
+		if k := strings.Index(root, "{"); k >= 0 {
+			return root[:k]
+		}
+		return root
+	}
+	for i := range t.Svcs {
+		if fixedOf(&t.Svcs[i]) == p {
+			return true // some root registers exactly p (and p + "/")
+		}
+	}
+	for i := range t.Svcs {
+		// a prefix registered as subtree only ("/a/" for /a/{x} or for a root declared "/a/"): net/http itself redirects "/a"
+		if fixed := fixedOf(&t.Svcs[i]); strings.HasSuffix(fixed, "/") && p+"/" == fixed {
+			return false
+		}
+	}
+	for i := range t.Svcs {
+		fixed := fixedOf(&t.Svcs[i])
+		if fixed == "/" || fixed == "" {
+			return true
+		}
+		if strings.HasSuffix(fixed, "/") {
+			if strings.HasPrefix(p, fixed) && len(p) > len(fixed) {
+				return true
+			}
+		} else if p == fixed || strings.HasPrefix(p, fixed+"/") {
+			return true
+		}
+	}
+	return false
+}
+
 // c14: by default a trailing slash on the request path changes nothing.
 func c14(ctx *core.Ctx) {
 	quietLogs()
-	ctx.Rule("pairs (p, p+'/') dispatched to the same container; p has >= 1 non-empty segment and no trailing slash; all request kinds of C02 (hits, near misses, adversarial). CurlyRouter on every template form, RouterJSR311 on tables without tail wildcard. Oracle: equal status, invoked route, parameters and Allow set. Non-trivial = a pair whose outcome is not a root-level 404; distinct by (router, outcome class, template kind-shape or request class).")
+	ctx.Rule("pairs (p, p+'/') dispatched to the same container (Dispatch; every 3rd pair also through ServeHTTP where the framework owns both ServeMux patterns); p has >= 1 non-empty segment and no trailing slash; all request kinds of C02 (hits, near misses, adversarial). CurlyRouter on every template form, RouterJSR311 on tables without tail wildcard. Oracle: equal status, invoked route, parameters and Allow set. Non-trivial = a pair whose outcome is not a root-level 404; distinct by (router, outcome class, template kind-shape or request class).")
 	ctx.Assume("TrimRightSlashEnabled is left at its default (true)")
 	if !restful.TrimRightSlashEnabled {
 		ctx.Violation(-1, "c14:default-strategy", "TrimRightSlashEnabled is not true by default", nil)
@@ -420,6 +463,17 @@ func c14(ctx *core.Ctx) {
 				}
 				if len(ha["Allow"]) > 0 && ha["Allow"][0] != "" {
 					ctx.Sig(fmt.Sprintf("%s|options|%d", router, len(strings.Split(ha["Allow"][0], ","))))
+				}
+			}
+			if _, clean := rt.Tokens(p); clean && qi%3 == 0 && muxOwns(t, p) {
+				// the same pair through ServeHTTP wherever the framework owns both ServeMux patterns
+				sa := rt.Run(c, rt.ServeHTTP, &a)
+				sb := rt.Run(c, rt.ServeHTTP, &b)
+				ctx.Eval(2)
+				ctx.Count("servehttp_pairs", 1)
+				if sa.Sig() != sb.Sig() {
+					ctx.Violation(ti, "c14:servehttp:"+router+":"+sa.Class()+"-vs-"+sb.Class(), fmt.Sprintf("via ServeHTTP %s %q -> %s but %q -> %s", req.Method, p, sa.Sig(), p+"/", sb.Sig()),
+						caseDoc{Router: router, Entry: rt.ServeHTTP, Table: t, Req: b, Obs: sb, Want: sa.Sig()})
 				}
 			}
 			if oa.Sig() != ob.Sig() {
